@@ -35,7 +35,7 @@ PARK = ("fs.tmpname", "fs.open", "fs.close", "fs.unlink")
 
 def budget(tier):
     if tier == "quick":
-        return {"runs": 640, "wall": 50, "chunk": 8}
+        return {"runs": 1200, "wall": 50, "chunk": 8}
     return {"runs": 60000, "wall": 1500, "chunk": 8}
 
 
